@@ -257,6 +257,8 @@ def emit_checks(fams, lists, ctors=None):
                 files[mod + '.lean'] = '\n'.join(body)
                 mods.append(mod)
     agg = ['/- GENERATED by translate/rules.py -- do not edit. -/'] + ['import Stbem.Gen.RuleChecks.%s' % m for m in mods]
+    if ctors:
+        agg.append('import Stbem.Gen.CtorKeys')
     agg += ['namespace Stbem.Rules.Gen', 'open Stbem.Rules', 'set_option maxRecDepth 100000', '']
     for f in FAMILIES:
         fl = FAM_LEAN[f]
@@ -275,13 +277,10 @@ def emit_checks(fams, lists, ctors=None):
             top = -a + b - 1
             if odd and top % 2 == 0:
                 top -= 1
-            agg.append('/-- `%s` of `src/quadrature.py`: key `N = (N_poly + %d) // %d + %d`%s -/\n'
-                       'def ctorKey_%s (npoly : Int) : Int := (npoly + %d) / %d + %d\n'
-                       'def ctorOdd_%s : Bool := %s\n'
-                       '/-- the largest degree the constructor maps to key `N` -/\n'
+            # the key maps themselves (ctorKey_*, ctorOdd_*) are defined in Gen/CtorKeys.lean (emit_ctor_keys), imported above
+            agg.append('/-- the largest degree `%s` maps to key `N` (key map `(N_poly + %d) // %d + %d`%s) -/\n'
                        'def ctorDmax_%s (N : Int) : Int := %d * (N - %d) + %d'
-                       % (cname, a, b, c, ', asserts odd `N_poly`' if odd else '', fl, a, b, c, fl, 'true' if odd else 'false',
-                          fl, b, c, top))
+                       % (cname, a, b, c, ', odd degrees only' if odd else '', fl, b, c, top))
             agg.append('theorem ctorKey_%s_le (d N : Int) (%s : ctorOdd_%s = true → d %% 2 = 1) (h : ctorKey_%s d = N) :\n'
                        '    d ≤ ctorDmax_%s N := by\n  %sunfold ctorKey_%s at h; unfold ctorDmax_%s; omega'
                        % (fl, 'hodd' if odd else '_hodd', fl, fl, fl, 'have hd := hodd rfl; ' if odd else '', fl, fl))
@@ -301,6 +300,26 @@ def emit_checks(fams, lists, ctors=None):
     return files
 
 
+def emit_ctor_keys(ctors):
+    """Gen/CtorKeys.lean: the degree -> key maps of the Gauss scheme constructors of src/quadrature.py (no imports, so that
+    Props/QuadCtorTie.lean can compare them with the constructors regenerated by translate/quadgen.py without depending
+    on the table certificates)."""
+    out = ['/- GENERATED by translate/rules.py from src/quadrature.py -- do not edit. -/', 'namespace Stbem.Rules.Gen', '']
+    for cname, (a, b, c, odd) in ctors.items():
+        fam, fl = CTORS[cname]
+        out.append('/-- `%s`: key = (N_poly + %d) // %d + %d%s -/\ndef ctorKey_%s (npoly : Int) : Int := (npoly + %d) / %d + %d' %
+                   (cname, a, b, c, '; even N_poly is rejected by an assertion' if odd else '', fl, a, b, c))
+        out.append('/-- does `%s` assert that N_poly is odd? -/\ndef ctorOdd_%s : Bool := %s' % (cname, fl, 'true' if odd else 'false'))
+    out += ['', 'end Stbem.Rules.Gen', '']
+    return '\n'.join(out)
+
+
+def generate_ctor_keys(repo, gen_dir, write):
+    ctors = parse_ctors(os.path.join(repo, 'src', 'quadrature.py'))
+    write(os.path.join(gen_dir, 'CtorKeys.lean'), emit_ctor_keys(ctors))
+    return ctors
+
+
 def main(repo, dest):
     fams, lists = parse_rules(os.path.join(repo, 'src', 'quadrature_rules.py'))
     return emit(fams, lists), fams, lists
@@ -310,7 +329,7 @@ def generate(repo, gen_dir, write):
     """Writes Gen/Rules.lean and Gen/RuleChecks/*.lean through `write(path, text)`; removes stale check files."""
     fams, lists = parse_rules(os.path.join(repo, 'src', 'quadrature_rules.py'))
     write(os.path.join(gen_dir, 'Rules.lean'), emit(fams, lists))
-    ctors = parse_ctors(os.path.join(repo, 'src', 'quadrature.py'))
+    ctors = generate_ctor_keys(repo, gen_dir, write)
     files = emit_checks(fams, lists, ctors)
     cdir = os.path.join(gen_dir, 'RuleChecks')
     os.makedirs(cdir, exist_ok=True)
